@@ -20,6 +20,8 @@ type Case struct {
 	// ScaleExp k: the operations run on both operands multiplied exactly by 2^k and the result is divided by 2^k again
 	// before the oracle (which works on the unscaled case) looks at it
 	ScaleExp int `json:"scale_exp,omitempty"`
+	// Respelled: an operand lists several shells in one Polygon value, or its rings in an order other than shell first
+	Respelled bool `json:"respelled,omitempty"`
 }
 
 var kinds = []string{"Polygon", "MultiPolygon", "Bounds"}
@@ -72,6 +74,25 @@ func gen(t *rapid.T) Case {
 		bx, by = A.Cx+1000*R*math.Cos(ang), A.Cy+1000*R*math.Sin(ang)
 	}
 	c.B = vkit.GenPolygonal(t, kb, bx, by, RB, snap).G
+	// spellings the library itself produces or accepts: the rings of a multi-polygon listed in ONE Polygon value (what
+	// every operation returns for a result of several pieces, so what a chained a.XOr(b).XOr(c) passes on), and rings
+	// in any order (a hole listed before its shell)
+	respell := func(g vkit.GJ, lbl string) vkit.GJ {
+		if g.T == "MultiPolygon" && rapid.IntRange(0, 3).Draw(t, "flatten"+lbl) == 2 {
+			var rings [][]vkit.P2
+			for _, p := range g.Polys {
+				rings = append(rings, p...)
+			}
+			g = vkit.GJ{T: "Polygon", Rings: rings}
+			c.Respelled = true
+		}
+		if g.T == "Polygon" && len(g.Rings) >= 2 && rapid.IntRange(0, 3).Draw(t, "ringorder"+lbl) == 2 {
+			g.Rings = rapid.Permutation(g.Rings).Draw(t, "ringperm"+lbl)
+			c.Respelled = true
+		}
+		return g
+	}
+	c.A, c.B = respell(c.A, "A"), respell(c.B, "B")
 	if rapid.IntRange(0, 2).Draw(t, "scaled") == 1 {
 		c.ScaleExp = rapid.OneOf(rapid.IntRange(-10, 40), rapid.IntRange(-10, 40), rapid.IntRange(-10, 40), rapid.IntRange(-60, -10), rapid.IntRange(-200, 200)).Draw(t, "scale_exp")
 	}
@@ -187,8 +208,8 @@ func bbox(polys [][][]vkit.P2) (x0, y0, x1, y1 float64) {
 
 // validOperand is an independent validity test of a generated operand (so that a generator mistake cannot
 // become a false alarm): within the operand no two edges come within margin of each other except neighbours in a
-// ring at their shared vertex, every hole starts inside its shell and outside the other holes, and member shells
-// are mutually outside each other.
+// ring at their shared vertex, and every ring is a shell (inside no other ring) or a hole of a shell (inside exactly
+// one other ring, which is a shell) - whatever the grouping and order of the rings.
 func validOperand(polys [][][]vkit.P2, margin float64) bool {
 	type re struct {
 		a, b       vkit.P2
@@ -237,21 +258,29 @@ func validOperand(polys [][][]vkit.P2, margin float64) bool {
 			}
 		}
 	}
-	for pi, p := range polys {
-		for ri := 1; ri < len(p); ri++ {
-			if vkit.PIP(p[ri][0], [][][]vkit.P2{{p[0]}}) != vkit.Inside {
-				return false
+	// nesting, independent of how the rings are grouped and ordered: every ring is either inside no other ring (a shell)
+	// or inside exactly one other ring, which is a shell (a hole of that shell)
+	var rings [][]vkit.P2
+	for _, p := range polys {
+		rings = append(rings, p...)
+	}
+	inside := make([][]int, len(rings))
+	for i, r := range rings {
+		for j, q := range rings {
+			if i == j {
+				continue
 			}
-			for rj := 1; rj < len(p); rj++ {
-				if rj != ri && vkit.PIP(p[ri][0], [][][]vkit.P2{{p[rj]}}) != vkit.Outside {
-					return false
-				}
+			switch vkit.PIP(r[0], [][][]vkit.P2{{q}}) {
+			case vkit.Inside:
+				inside[i] = append(inside[i], j)
+			case vkit.OnEdge:
+				return false
 			}
 		}
-		for pj, q := range polys {
-			if pj != pi && vkit.PIP(p[0][0], [][][]vkit.P2{{q[0]}}) != vkit.Outside {
-				return false
-			}
+	}
+	for i := range rings {
+		if len(inside[i]) > 1 || (len(inside[i]) == 1 && len(inside[inside[i][0]]) != 0) {
+			return false
 		}
 	}
 	return true
@@ -364,6 +393,9 @@ func run(c Case) (v vkit.Verdict) {
 	}
 	v.Class("cfg_" + cfg)
 	v.Class("kinds_" + c.A.T + "_" + c.B.T)
+	if c.Respelled {
+		v.Class("several_shells_in_one_polygon_or_hole_first")
+	}
 	v.NonTrivial = true // every class above is one where either the clipper or a shortcut acts; far-apart is bbox_disjoint
 
 	sc, inv := 1.0, 1.0
@@ -479,7 +511,7 @@ func TestProp(t *testing.T) {
 	_ = fmt.Sprint
 	vkit.Main(t, vkit.Spec[Case]{
 		ID: "C01",
-		Rule: "rapid: operand pairs with kinds drawn from {Polygon, MultiPolygon, *Bounds}^2; in 1 case of 3 both operands are handed to the operations multiplied exactly by 2^k (k in +-40 or +-200; the result is divided by 2^k again, so the oracle works at unit scale); polygons valid by construction (two families: 2/3 star-shaped shell of 3-12 vertices (a few per cent: 100-400) with " +
+		Rule: "rapid: operand pairs with kinds drawn from {Polygon, MultiPolygon, *Bounds}^2; in 1 case of 3 both operands are handed to the operations multiplied exactly by 2^k (k in +-40 or +-200; the result is divided by 2^k again, so the oracle works at unit scale); a quarter of the multi-polygon operands is respelled as ONE Polygon value listing all rings (what the operations return for results of several pieces), a quarter of the polygons lists its rings in a drawn order (hole before shell); polygons valid by construction (two families: 2/3 star-shaped shell of 3-12 vertices (a few per cent: 100-400) with " +
 			"0-3 star-shaped holes in disjoint sectors of the inscribed disc; 1/3 non-star 'comb/snake' bands of 6-18 vertices between two chains over common knots, rotated or with vertically aligned knots, holes in the cells' inscribed discs; multi-polygons of 1-3 members in disjoint cells, every ring independently reversed/" +
 			"rotated/closed-or-unclosed); B placed by a drawn configuration (overlap, nested, in a hole, diagonal, bounding-box disjoint, far); continuous " +
 			"coordinates and a variant snapped to 2^-10; cases with a vertex of one operand within 1e-7*scale of an edge of the other are skipped (counted). All four " +
